@@ -60,6 +60,10 @@ func Load(cfg Config) (*Program, error) {
 	// even when the caller did not source env.sh.
 	const pinned = "/opt/veriftools/go1.26.8/bin"
 	if _, err := os.Stat(pinned + "/go"); err == nil {
+		// exec.LookPath("go") inside go/packages uses this process's PATH
+		if cur := os.Getenv("PATH"); !strings.HasPrefix(cur, pinned+":") {
+			os.Setenv("PATH", pinned+":"+cur)
+		}
 		for i, e := range env {
 			if strings.HasPrefix(e, "PATH=") && !strings.HasPrefix(e, "PATH="+pinned+":") {
 				env[i] = "PATH=" + pinned + ":" + strings.TrimPrefix(e, "PATH=")
